@@ -443,6 +443,10 @@ func (s *blsThresholdSignatureInspector) reconstructThresholdSignature() (Signat
 	shares := make([]byte, 0, len(s.shares)*SignatureLenBLSBLS12381)
 	signers := make([]index, 0, len(s.shares))
 	for index, share := range s.shares {
+		// the C layer reads exactly SignatureLenBLSBLS12381 bytes per share
+		if len(share) != SignatureLenBLSBLS12381 {
+			return nil, errInvalidSignature
+		}
 		shares = append(shares, share...)
 		signers = append(signers, index+1)
 	}
@@ -528,6 +532,10 @@ func BLSReconstructThresholdSignature(size int, threshold int,
 	flatShares := make([]byte, 0, SignatureLenBLSBLS12381*(threshold+1))
 	indexSigners := make([]index, 0, threshold+1)
 	for i, share := range shares {
+		// the C layer reads exactly SignatureLenBLSBLS12381 bytes per share
+		if len(share) != SignatureLenBLSBLS12381 {
+			return nil, errInvalidSignature
+		}
 		flatShares = append(flatShares, share...)
 		// check the index is valid
 		if signers[i] >= size || signers[i] < 0 {
